@@ -27,6 +27,8 @@ CLAIMED = {
              note="Trusted: TLC, Cal.tla, drivers/split.py (string parsing of split names, stub tidd sub-models with distinct constants). Completeness of the candidate list is not demanded (not in the statement)."),
  "C14": dict(engine="Settings", design="6 C14", text="SettingsTable.tla pins, as literal TLA+, the approved constant, developer flag, a valid alternative and an invalid value of all 174 fields of the current / legacy / billing / hourly settings trees; SettingsDefs.tla states the lock (developer field + alternative without developer mode => rejected), rejection of invalid values, acceptance of permitted ones with only the requested field changed, 14 cross-field cases and stored-settings equality; Settings.tla enumerates the whole space (5.6k constructions) which is replayed exhaustively on real DailyModel / BillingModel / HourlyModel constructors, every outcome judged by TLC (SettingsTrace).",
              note="Trusted: TLC, the pinned table (generated once from the code by tools/gen_settings_table.py, then frozen), drivers/settings.py (canonical JSON of dumped values, numbers compared as numbers)."),
+ "C17": dict(engine="Prep", design="6 C17", text="PrepDefs.tla states the per-cell rule of hourly data preparation (supplied finite value => kept and unflagged; not supplied - NaN, zero electric usage, absent row - => flagged and present unless the whole column is empty; a duplicated timestamp keeps its first row; gap-free whole-day index); Prep.tla enumerates every pattern of 2-3 consecutive hours over row x temperature x usage x irradiance classes, electric / gas; each pattern is embedded in real frames of 4..400 days (ragged edge days, DST change, leap day, empty usage column, background gaps) and the frame returned by HourlyBaselineData / HourlyReportingData is compared with the supplied one cell by cell, judged by TLC (PrepTrace).",
+             note="Trusted: TLC, drivers/prep.py (construction of the supplied-truth frame, per-cell comparison). On-the-hour local input of at least 4 days."),
  "C18": dict(engine="Seg", design="6 C18", text="SegDefs.tla states the four month-weight tables (doubled integers), prediction routing, the temperature-bin function, the occupied/unoccupied split and hour-of-week; Seg.tla checks partition of unity, routing = inverse of full weight, the bin theorems and 24*dow+hour onto 0..167 with TLC and enumerates cases; every weight / routing case is decided on all hours of its month in a leap and a non-leap year and 2-4 zones against the real segment_time_series and a CalTRACKHourlyModel wired with provenance-tagged month models; bin, occupancy and time features are replayed on the real functions; all judged by TLC (SegTrace).",
              note="Trusted: TLC, drivers/seg.py (integer projection; stub month models that name their centre month)."),
  "C19": dict(engine="Agg", design="6 C19", text="AggDefs.tla states monthly / bi-monthly aggregation as sums, mean (rational) and root-sum-square (squared) of the daily rows of the same call, one row per calendar period, totals conserved, other arguments rejected; Agg.tla enumerates layouts (start dates incl. month ends and leap day, spans, gap and observed patterns, 7-10 argument spellings) with the civil calendar of Cal.tla and checks the oracle's own level-agreement theorems; every layout is realised as a billing reporting object in 4 zones, predicted at both levels and judged by TLC (AggTrace).",
